@@ -104,6 +104,7 @@ VZone(e, z) ==
         THEN (IF v = {} \/ "ok-or" \in v THEN {} ELSE {"C13-accepted-but-must-fail"})
              \cup (IF r.ok.ref = "ok" THEN {} ELSE {"C13-constructors-disagree"})
              \cup (IF r.ok.echo.tr = e.a.tr /\ r.ok.echo.ty = e.a.ty /\ r.ok.echo.lp = e.a.lp /\ r.ok.echo.rule = e.a.rule THEN {} ELSE {"C13-accessors-differ"})
+             \cup (IF r.ok.eq = 1 THEN {} ELSE {"C13-owned-and-borrowed-zone-not-equal"})
         ELSE (IF v = {} THEN {"C13-refused-but-well-formed"} ELSE IF r.err \in v THEN {} ELSE {"C13-wrong-error"})
              \cup (IF r.ref = r.err THEN {} ELSE {"C13-constructors-disagree"}))
 
@@ -186,8 +187,25 @@ FootprintAllowed(a) ==
   \/ a.kind = "fs" /\ a.file = "src/timezone/mod.rs"                   \* std::fs::read, only as the default of the injectable read function
 VFootprint(e) == IF FootprintAllowed(e.a) THEN {} ELSE {"C15-global-state-footprint"}
 
+\* ---- beyond the list: convenience constructors and the clock-reading entry points ----
+FixedZoneArgs(off) == [tr |-> <<>>, ty |-> <<[off |-> off, dst |-> 0, des |-> <<>>]>>, lp |-> <<>>, rule |-> [k |-> "none"]]
+VFixedZone(e) ==
+  IF e.a.off = I32Min THEN Judge(e.r, OutErr("LocalTimeType.InvalidUtcOffset"))
+  ELSE Judge(e.r, OutOk([zone |-> FixedZoneArgs(e.a.off), utc |-> FixedZoneArgs(0), utc_owned |-> FixedZoneArgs(0),
+                         equals_utc |-> IF e.a.off = 0 THEN 1 ELSE 0, lt_utc |-> UtcType]))
+\* now(): the instant lies between two readings of the same clock taken around the call; the value is a well-formed date-time of the zone
+VNow(e) ==
+  IF ~Has(e.r, "ok") THEN NoPanic(e.r) \cup {"now-failed"}
+  ELSE LET o == e.r.ok IN
+       (IF WLe(o.t0, o.dt.tn) /\ WLe(o.dt.tn, o.t1) THEN {} ELSE {"now-outside-clock-readings"})
+       \cup (IF e.a.via = "utc" THEN (IF UdtInv(o.dt) THEN {} ELSE {"C14-dtinv"})
+             ELSE (IF DtInv(o.dt) THEN {} ELSE {"C14-dtinv"})
+                  \cup (IF o.dt \in Localtime(vZone, WToCDS(o.dt.u), o.dt.ns).ok THEN {} ELSE {"wrong-value"}))
+
 Verdict(e) ==
   CASE e.op = "gmtime" -> VGmtime(e)
+    [] e.op = "fixedzone" -> VFixedZone(e)
+    [] e.op = "now" -> VNow(e)
     [] e.op = "footprint" -> VFootprint(e)
     [] e.op = "posixtz" -> NoPanic(e.r)
     [] e.op = "local" -> NoPanic(e.r)
@@ -229,6 +247,11 @@ Step(e) ==
      /\ vZone' = IF Has(e.r, "ok") THEN MkZone(e.r.ok.zone) ELSE vZone
      /\ vInfo' = vInfo
      /\ vBuf' = vBuf
+  ELSE IF e.op = "fixedzone" THEN
+     /\ vBad' = vBad \cup {<<vL, t>> : t \in Verdict(e)}
+     /\ vZone' = IF Has(e.r, "ok") THEN MkZone(e.r.ok.zone) ELSE UtcZone
+     /\ vInfo' = vInfo
+     /\ vBuf' = EmptyBuf
   ELSE IF e.op = "tzif" THEN
      /\ vBad' = vBad \cup {<<vL, t>> : t \in Verdict(e)}
      /\ vZone' = IF Has(e.r, "ok") THEN MkZone(e.r.ok) ELSE UtcZone     \* the zone as decoded by the crate (judged by VTzif)
